@@ -107,6 +107,7 @@ Equivalent(a, b) == CanonUri(a) = CanonUri(b)
 ----------------------------------------------------------------------------
 (* What the rpki URI parsers accept *)
 
+TooLong(t) == t = "x300"                      \* longer than NAME_MAX (255): no file system entry of that name
 BadChar(t) == t = "a b"                       \* is_u8_uri_ascii (uri.rs:919): no space, quote, <, >, ?, #, @, \, ...
 Dots(t)    == t = "." \/ t = ".."
 
@@ -225,6 +226,7 @@ TreeClash(a, b) ==
 Published(i) ==
   LET u == IF i = 1 THEN u1 ELSE u2 IN
   /\ u.sch = "rsync" /\ IsFileUri(u)
+  /\ \A j \in 1..Len(u.path) : ~TooLong(u.path[j])
   /\ i = 2 => ~(u1.sch = "rsync" /\ IsFileUri(u1) /\ TreeClash(u1, u2))
 
 (* StoredPoint::open (store.rs:780) creates the file of the point before   *)
@@ -361,9 +363,11 @@ C30_Distinct ==
 
 (* A file entry must name a file: the path the code hands to File::create  *)
 (* must not end in a slash, "." or "..", nor be a directory the code makes *)
-(* for the same URI.  (Not part of C30's statement; the pinned code fails  *)
-(* it for manifest URIs that are directory URIs, the run fails fatally.)   *)
-Creatable(e) == e.t = "file" => LET l == e.p[Len(e.p)] IN l # "" /\ ~Dots(l)
+(* for the same URI, and no component may exceed NAME_MAX.  (Not part of   *)
+(* C30's statement; the pinned code fails it for manifest URIs that are    *)
+(* directory URIs or have an over-long segment: the run fails fatally.)    *)
+Creatable(e) == /\ e.t = "file" => LET l == e.p[Len(e.p)] IN l # "" /\ ~Dots(l)
+                /\ \A j \in 1..Len(e.p) : ~TooLong(e.p[j])
 Storable ==
   \A i \in 1..2 :
     /\ \A e \in ents[i] : Creatable(e)
